@@ -227,5 +227,22 @@ theorem runOps_agree (h1 h2 : H) (ops1 ops2 : List (Bool × Nat × Nat)) (hw1 : 
   rw [wf_count _ (runOps_wf h1 ops1 hw1), wf_count _ (runOps_wf h2 ops2 hw2), hpar c]
   exact ⟨rfl, rfl⟩
 
+/-- one `add_child`, list by list: the child goes to the end of the new parent's list, leaves the previous parent's,
+every other list is untouched, and the siblings keep their order everywhere -/
+theorem addChild_lists (h : H) (p c q : Nat) :
+    (addChild h p c).ch q =
+      if q = p then (h.ch p).filter (· != c) ++ [c]
+      else if h.par c = some q then (h.ch q).filter (· != c) else h.ch q := by
+  simp only [addChild]
+
+theorem addChild_siblings_keep_order (h : H) (p c q : Nat) :
+    ((addChild h p c).ch q).filter (· != c) = (h.ch q).filter (· != c) := by
+  rw [addChild_lists]
+  split
+  · rename_i e; subst e; simp [List.filter_filter]
+  · split
+    · simp [List.filter_filter]
+    · rfl
+
 end Hier
 end BevySync
